@@ -2,9 +2,7 @@ use anyhow::Result;
 
 use crate::parser::{Node, Parser};
 
-use super::{
-    get_net_dependencies, CompilationState, Compile, Declaration, Dependencies, Dependency,
-};
+use super::{CompilationState, Compile, Declaration, Dependencies, Dependency};
 
 #[derive(Debug)]
 pub struct Block(Vec<Declaration>);
@@ -26,8 +24,31 @@ impl Dependencies for Block {
         block_dependencies
     }
 
+    /// A name declared by a statement is supplied to the statements that FOLLOW it: a
+    /// function literal written before `x = ..` still means the `x` of an enclosing scope.
     fn net_dependencies(&self) -> Vec<Dependency> {
-        get_net_dependencies(self, true)
+        let mut supplied: Vec<Dependency> = vec![];
+        let mut result: Vec<Dependency> = vec![];
+
+        for declaration in self.0.iter() {
+            'dependency_loop: for mut dependency in declaration.net_dependencies() {
+                for supplied in &supplied {
+                    if supplied
+                        .eq_allow_callbacks(&dependency)
+                        .expect("idents do not have types")
+                    {
+                        continue 'dependency_loop;
+                    }
+                }
+
+                dependency.increment_cycle();
+                result.push(dependency);
+            }
+
+            supplied.append(&mut declaration.supplies());
+        }
+
+        result
     }
 }
 
